@@ -100,7 +100,7 @@ def _run(case, ctx, sim):
     class LoggedConnection(Base):
         def __init__(self, *a, **k):
             cur = world.current
-            rec = [world.now, None, cur.name if cur is not None else "main", None]
+            rec = [world.now, None, cur.name if cur is not None else "main", None, cur.id if cur is not None else 0]
             starts.append(rec)
             try:
                 Base.__init__(self, *a, **k)
@@ -307,7 +307,9 @@ def _run(case, ctx, sim):
             pool_tasks = ("task:run_add_or_renew_pool", "task:_replace", "task:_retrying_replace", "task:_create_new_connection")
             later = [r for r in starts[ret.get("starts", len(starts)):] if r[2] in pool_tasks]
             if later:
-                ctx.fail(["C45.connect-after-shutdown", "session", str(later[0][2])],
+                running = any(r[4] == later[0][4] for r in starts[:ret.get("starts", len(starts))])
+                ctx.fail(["C45.connect-after-shutdown", "session", str(later[0][2]),
+                          "task-already-connecting" if running else "new-task"],
                          "pool connection attempts were started after Session.shutdown() of the only session had returned: %r" % (
                              [(round(r[0] - ret["t"], 2), r[1], r[2]) for r in later],))
         if not ctx._failures:
@@ -338,7 +340,8 @@ def _run(case, ctx, sim):
             break
     later = starts[ret.get("starts", len(starts)):]
     if later:
-        ctx.fail(["C45.connect-after-shutdown", str(later[0][2])],
+        running = any(r[4] == later[0][4] for r in starts[:ret.get("starts", len(starts))])
+        ctx.fail(["C45.connect-after-shutdown", "cluster", str(later[0][2]), "task-already-connecting" if running else "new-task"],
                  "connection attempts were started after Cluster.shutdown() had returned (+%.2f s): %r" % (
                      ret["t"] - t_call, [(round(r[0] - ret["t"], 2), r[1], r[2]) for r in later]))
     if ctx._failures:
@@ -379,8 +382,8 @@ def _run(case, ctx, sim):
 
 def parts(tier):
     return [
-        hyp_part("blocking", lambda: s_case("blocking"), interpret, tier, quick=120, thorough=1200,
+        hyp_part("blocking", lambda: s_case("blocking"), interpret, tier, quick=300, thorough=1200,
                  quick_shards=6, thorough_shards=12),
-        hyp_part("locks", lambda: s_case("locks"), interpret, tier, quick=50, thorough=400,
+        hyp_part("locks", lambda: s_case("locks"), interpret, tier, quick=120, thorough=400,
                  quick_shards=2, thorough_shards=4),
     ]
